@@ -66,4 +66,3 @@ func repoFrames(tb string) string {
 	}
 	return strings.Join(out, " < ")
 }
-
